@@ -140,6 +140,7 @@ class Engine:
         self.order_mode = 'all'       # 'all' | 'insertion' | 'reverse' | 'scoped'
         self.order_all_in = set()
         self.order_fallback = 'insertion'
+        self.order_dirs = None        # None: directory listings follow order_mode; else a fixed mode for them
 
     # -- symbolic inputs ---------------------------------------------------------------------
     def fresh_int(self, name, lo=None, hi=None):
